@@ -1,7 +1,7 @@
 """C16: address preference sorting loses nothing and puts the preferred family first (level: other)."""
 import itertools
 import re
-from core import (norm, L_call, L_variant, arms, assigns_to_return, closure_arg_of, sig, const_of, awaits, CallSite, AbsPaths, returned_comparison, L_opt, INT_CMP)
+from core import (norm, L_call, L_variant, arms, assigns_to_return, closure_arg_of, sig, const_of, awaits, CallSite, AbsPaths, returned_comparison, L_opt, INT_CMP, VALUE_EQ)
 from mir import op_place
 import c11
 
@@ -304,25 +304,30 @@ def C16_1s(ctx, facts):
     ctx.touched(f)
     rows = bad = 0
     first_bad = None
-    for L in range(0, 5):
-        for fams in itertools.product(("V4", "V6"), repeat=L):
+    # lists of distinct addresses up to length 4, and lists over {a, b} per family up to length 3 in which an address occurs twice
+    scen = [(fams, None) for L in range(0, 5) for fams in itertools.product(("V4", "V6"), repeat=L)]
+    for L in range(2, 4):
+        for tags in itertools.product(("v4#a", "v4#b", "v6#a"), repeat=L):
+            if len(set(tags)) < len(tags):
+                scen.append((tuple("V4" if t.startswith("v4") else "V6" for t in tags), tags))
+    for (fams, tags) in scen:
             for pref in (None, "V4", "V6"):
-                elems = tuple(("const", "%s#%d" % (x.lower(), i)) for i, x in enumerate(fams))
+                elems = tuple(("const", t) for t in tags) if tags is not None else tuple(("const", "%s#%d" % (x.lower(), i)) for i, x in enumerate(fams))
                 st = {1: ("refval", ("variant", "SocketAddrs", ((0, ("seq", 1)),))), -1: ("list", elems),
                       2: (("variant", "None", ()) if pref is None else ("variant", "Some", ((0, ("variant", pref, ())),)))}
                 try:
-                    outs = AbsPaths(f, limit=8000, raw_oracles=seqmodel.RAW_ORACLES, oracles=[INT_CMP]).outcomes(state=st, extra_keys=(-1,))
+                    outs = AbsPaths(f, limit=8000, raw_oracles=seqmodel.RAW_ORACLES, oracles=[INT_CMP, VALUE_EQ]).outcomes(state=st, extra_keys=(-1,))
                 except AbsPaths.Undecided as e:
                     ctx.undecided("sort_preferred|row|%s|prefer=%s" % ("".join(x[1] for x in fams) or "-", pref), str(e), f.where())
                     continue
                 rows += 1
                 got = [[e[1] for e in o[2][0][1]] if (o[2][0] is not None and o[2][0][0] == "list") else None for o in outs]
-                exp = seqmodel.expected_sort(list(fams), pref)
+                exp = seqmodel.expected_sort(list(fams), pref, tags)
                 if got != [exp]:
                     bad += 1
                     if first_bad is None:
                         first_bad = (fams, pref, got, exp)
-    ctx.floor("sort_preferred|table-rows", rows, 93, "lists x preferences evaluated")
+    ctx.floor("sort_preferred|table-rows", rows, 3 * len(scen), "lists x preferences evaluated")
     ctx.check(bad == 0, "sort_preferred|table", "for all %d (list, preference) scenarios the result is the specified permutation" % rows,
               "%d scenario(s) differ from the specification, e.g. families %s with preference %s give %s, expected %s" %
               ((bad,) + (first_bad if first_bad else ("-", "-", "-", "-"))), f.where())
